@@ -2,30 +2,23 @@ use crate::eng::*;
 use varpulis_runtime::event::Event;
 pub fn main() {
     let progs = [
-        "stream W = E\n  .window(3)\n  .emit(seq: seq, k: k)",
-        "stream W = E\n  .window(2s)\n  .emit(seq: seq, k: k)",
-        "stream W = E\n  .partition_by(k)\n  .window(2)\n  .emit(seq: seq, k: k)",
-        "stream W = E\n  .partition_by(k)\n  .window(2s)\n  .emit(seq: seq, k: k)",
-        "stream W = E\n  .window(session: 2s)\n  .emit(seq: seq, k: k)",
-        "stream W = E\n  .window(3, sliding: 1)\n  .emit(seq: seq, k: k)",
-        "stream W = E\n  .window(3s, sliding: 1s)\n  .emit(seq: seq, k: k)",
-        "stream W = E\n  .window(2s)\n  .aggregate(n: count(), lo: first(seq), hi: last(seq), s: sum(bit))\n  .emit(n: n, lo: lo, hi: hi, s: s)",
-        "stream W = E\n  .watermark(out_of_order: 1s)\n  .allowed_lateness(1s)\n  .window(2s)\n  .emit(seq: seq)",
+        "stream A = EA\nstream B = EB\nstream J = join(A, B)\n  .on(A.k == B.k)\n  .window(2s)\n  .emit(k: A.k, sa: A.seq, sb: B.seq)",
+        "stream A = EA\nstream B = EB\nstream C = EC\nstream J = join(A, B, C)\n  .on(A.k == B.k and B.k == C.k)\n  .window(2s)\n  .emit(k: A.k, sa: A.seq, sb: B.seq, sc: C.seq)",
+        "stream J = join(EA, EB)\n  .on(EA.k == EB.k)\n  .window(2s)\n  .emit(k: EA.k, sa: EA.seq, sb: EB.seq)",
     ];
     for p in progs {
         println!("=== {}", p.replace('\n', " "));
         match Eng::new(p) {
             Err(e) => println!("ERR {}", e),
             Ok(mut en) => {
-                for i in 0..8i64 {
-                    let ev = Event::new_at("E", ts_ms(i * 700)).with_field("seq", i).with_field("k", if i % 2 == 0 { "a" } else { "b" }).with_field("bit", 1i64 << i);
+                for i in 0..9i64 {
+                    let ty = ["EA", "EB", "EC"][(i % 3) as usize];
+                    let ev = Event::new_at(ty, ts_ms(i * 700)).with_field("seq", i).with_field("k", if i % 2 == 0 { "a" } else { "a" });
                     let out = en.process(ev).unwrap();
-                    println!("  in {} -> {:?}", i, out.iter().map(show).collect::<Vec<_>>());
+                    println!("  in {} {} -> {:?}", i, ty, out.iter().map(show).collect::<Vec<_>>());
                 }
-                let out = en.watermark("E", 100_000).unwrap();
-                println!("  wm -> {:?}", out.iter().map(show).collect::<Vec<_>>());
                 let cp = en.engine.create_checkpoint();
-                println!("  cp windows: {:?}", cp.window_states.iter().map(|(k, w)| (k, w.events.len(), w.partitions.iter().map(|(p, q)| (p.clone(), q.events.len())).collect::<Vec<_>>())).collect::<Vec<_>>());
+                println!("  cp joins: {:?}", cp.join_states.keys().collect::<Vec<_>>());
             }
         }
     }
